@@ -366,8 +366,13 @@ func genC11(g *Gen) {
 
 		// Ldexp / Frexp
 		x := randAny(g.r)
-		if g.r.Intn(2) == 0 {
+		switch g.r.Intn(4) {
+		case 0:
 			x = mk(g.r.Intn(2) == 0, g.fullCoef(), randExp(g.r))
+		case 1:
+			x = mk(g.r.Intn(2) == 0, coefAtoms[g.r.Intn(len(coefAtoms))], randExp(g.r))
+		case 2:
+			x = mk(g.r.Intn(2) == 0, g.boundaryCoef(), g.r.Intn(81)-40)
 		}
 		_, _, _, xe := unmk(x)
 		var sh int
@@ -498,7 +503,16 @@ func genC19(g *Gen) {
 			g.un("Canonical", xv)
 		}
 		m := g.r.Intn(6)
-		op := []string{"Add", "Sub", "Mul", "Quo", "QuoRem", "Cmp", "CmpAbs", "Equal", "Compare", "Min", "Max", "Round", "Ceil", "Floor", "Ldexp", "Frexp", "IsZero", "Sign"}[g.r.Intn(18)]
+		op := []string{"Add", "Sub", "Mul", "Quo", "QuoRem", "Cmp", "CmpAbs", "Equal", "Compare", "Min", "Max", "Round", "Ceil", "Floor", "Ldexp", "Frexp", "IsZero", "Sign",
+			"Pow", "Pow", "String", "Sqrt", "Cbrt", "Exp", "Log", "Log1p", "Int", "Float64", "MarshalJSON"}[g.r.Intn(29)]
+		if op == "Pow" && g.r.Intn(2) == 0 { // the shortcut ladder depends on recognising one, zero, integers in every encoding
+			ys[0] = g.classRep()
+			ys[1], ys[2] = g.variant(ys[0]), g.variant(ys[0])
+			if g.r.Intn(2) == 0 {
+				xs[0] = g.classRep()
+				xs[1], xs[2] = g.variant(xs[0]), g.variant(xs[0])
+			}
+		}
 		dp := g.r.Intn(81) - 40
 		sh := g.r.Intn(201) - 100
 		for i := range xs {
@@ -506,6 +520,8 @@ func genC19(g *Gen) {
 			switch op {
 			case "Add", "Sub", "Mul", "Quo", "QuoRem":
 				g.bin(op, xv, yv, m)
+			case "Pow":
+				g.pow(xv, yv, m, true)
 			case "Cmp", "CmpAbs", "Equal", "Compare", "Min", "Max":
 				g.bin2(op, xv, yv)
 			case "Round", "Ceil", "Floor":
